@@ -227,41 +227,41 @@ func c04TypedRun[T numeric](t rt.TB, c c04TypedCase) {
 	}()
 }
 
-func TestC04_MathTyped(t *testing.T) {
-	rapid.Check(t, func(t *rapid.T) {
-		name := rapid.SampledFrom(c04TypeNames).Draw(t, "type")
-		ti := c04Types[name]
-		val := rapid.Custom(func(t *rapid.T) float64 {
-			switch rapid.IntRange(0, 5).Draw(t, "shape") {
-			case 0:
-				return ti.max - float64(rapid.IntRange(0, 3).Draw(t, "d"))
-			case 1:
-				return ti.min + float64(rapid.IntRange(0, 3).Draw(t, "d"))
-			case 2:
-				v := float64(rapid.IntRange(-100, 200).Draw(t, "small"))
-				return math.Min(math.Max(v, ti.min), ti.max)
-			case 3:
-				if ti.float {
-					return float64(rapid.IntRange(-4000, 4000).Draw(t, "q")) / 8 // exact in float32
-				}
-				return math.Min(math.Max(float64(rapid.IntRange(-3, 3).Draw(t, "tiny")), ti.min), ti.max)
-			default:
-				span := ti.max - ti.min
-				return ti.min + math.Floor(rapid.Float64Range(0, 1).Draw(t, "u")*span)
+func TestC04_MathTyped(t *testing.T) { rapid.Check(t, propC04MathTyped) }
+
+func propC04MathTyped(t *rapid.T) {
+	name := rapid.SampledFrom(c04TypeNames).Draw(t, "type")
+	ti := c04Types[name]
+	val := rapid.Custom(func(t *rapid.T) float64 {
+		switch rapid.IntRange(0, 5).Draw(t, "shape") {
+		case 0:
+			return ti.max - float64(rapid.IntRange(0, 3).Draw(t, "d"))
+		case 1:
+			return ti.min + float64(rapid.IntRange(0, 3).Draw(t, "d"))
+		case 2:
+			v := float64(rapid.IntRange(-100, 200).Draw(t, "small"))
+			return math.Min(math.Max(v, ti.min), ti.max)
+		case 3:
+			if ti.float {
+				return float64(rapid.IntRange(-4000, 4000).Draw(t, "q")) / 8 // exact in float32
 			}
-		})
-		c := c04TypedCase{Type: name, Vals: rapid.SliceOfN(val, 0, 8).Draw(t, "values"), End: rapid.SampledFrom([]string{"C", "C", "E"}).Draw(t, "end")}
-		if name == "float32" {
-			for i, v := range c.Vals {
-				c.Vals[i] = float64(float32(v))
-			}
+			return math.Min(math.Max(float64(rapid.IntRange(-3, 3).Draw(t, "tiny")), ti.min), ti.max)
+		default:
+			span := ti.max - ti.min
+			return ti.min + math.Floor(rapid.Float64Range(0, 1).Draw(t, "u")*span)
 		}
-		a, b := val.Draw(t, "lo"), val.Draw(t, "hi")
-		if name == "float32" {
-			a, b = float64(float32(a)), float64(float32(b))
-		}
-		c.Lo, c.Hi = math.Min(a, b), math.Max(a, b)
-		c04TypedDispatch(t, c)
-		rt.Case(caseKey("mathtyped", name, c.Vals, c.End, c.Lo, c.Hi), len(c.Vals) >= 2 && name != "int", "typed:"+name, func() any { return c })
 	})
+	c := c04TypedCase{Type: name, Vals: rapid.SliceOfN(val, 0, 8).Draw(t, "values"), End: rapid.SampledFrom([]string{"C", "C", "E"}).Draw(t, "end")}
+	if name == "float32" {
+		for i, v := range c.Vals {
+			c.Vals[i] = float64(float32(v))
+		}
+	}
+	a, b := val.Draw(t, "lo"), val.Draw(t, "hi")
+	if name == "float32" {
+		a, b = float64(float32(a)), float64(float32(b))
+	}
+	c.Lo, c.Hi = math.Min(a, b), math.Max(a, b)
+	c04TypedDispatch(t, c)
+	rt.Case(caseKey("mathtyped", name, c.Vals, c.End, c.Lo, c.Hi), len(c.Vals) >= 2 && name != "int", "typed:"+name, func() any { return c })
 }
